@@ -429,6 +429,7 @@ func runCLI(c *harness.Ctx, srng *rand.Rand, s, slot int) {
 	idx := dsu.RefIndex(blob, sz)
 	// (long-name: a file whose name leaves no room for the suffix of a temporary file next to it)
 	destKind := []string{"absent", "regular", "symlink", "absent", "regular", "symlink", "long-name"}[srng.Intn(7)]
+	untarToTar := "" // `untar --output-format gnu-tar`: the tar file written instead of a tree
 	c.Info("scenario=%d entry=cli:%s n=%d chunks=%d signal=%v at request %d dest=%s", s, cmdName, n, len(idx.Chunks), sig, k, destKind)
 	c.LogInfo()
 	dir := c.CaseDir()
@@ -554,6 +555,11 @@ func runCLI(c *harness.Ctx, srng *rand.Rand, s, slot int) {
 		dsu.Must(dsu.WriteIndex(idxFile, cidx))
 		os.MkdirAll(dest, 0755)
 		args = []string{"untar", "-i", "-n", fmt.Sprint(n), "-s", srv.URL, "-e", "1", idxFile, dest}
+		if s%3 == 1 {
+			// the other output format: a GNU tar file instead of a tree on disk
+			untarToTar = filepath.Join(dir, "out.tar")
+			args = []string{"untar", "-i", "--output-format", "gnu-tar", "-n", fmt.Sprint(n), "-s", srv.URL, "-e", "1", idxFile, untarToTar}
+		}
 	case "verify-index":
 		// no store involved: slow the feeder down with a failpoint and signal after k*3 ms
 		bad := append([]byte(nil), blob...)
@@ -667,6 +673,33 @@ func runCLI(c *harness.Ctx, srng *rand.Rand, s, slot int) {
 		}
 	case "untar":
 		got := listTree(dest)
+		if untarToTar != "" {
+			// members of the tar file, by name and kind (content by digest)
+			got = map[string]string{}
+			if tf, oerr := os.Open(untarToTar); oerr == nil {
+				tr := tar.NewReader(tf)
+				for {
+					h, terr := tr.Next()
+					if terr != nil {
+						break
+					}
+					name := filepath.Clean(h.Name)
+					switch h.Typeflag {
+					case tar.TypeDir:
+						got[name] = "D"
+					case tar.TypeSymlink:
+						got[name] = "L:" + h.Linkname
+					default:
+						b, _ := io.ReadAll(tr)
+						got[name] = fmt.Sprintf("F:%x", dsu.Sum(b))
+					}
+				}
+				tf.Close()
+			}
+			if _, ok := got["."]; !ok {
+				got["."] = "D"
+			}
+		}
 		complete = fmt.Sprint(got) == fmt.Sprint(wantTree)
 		detail = fmt.Sprintf("%d of %d entries unpacked", len(got), len(wantTree))
 	case "verify-index":
